@@ -26,10 +26,10 @@ TEXT = {
             'C01/C02/C04/C05 oracles run across incarnations.', '6/C06'),
     'C07': ('Vote grants per (voter, term) and the highest acknowledged term per node are tracked across incarnations under election-heavy schedules '
             'with kills right after a vote was granted; a grant for a second candidate, any message sent in an older term, or two leaders in a term '
-            'after a restart is a violation.', '6/C07'),
+            'after a restart is a violation. A fifth of the cases use dynamic membership: candidates and voters that joined at run time, journaled nodes restarted with the member list of their first start.', '6/C07'),
     'C09': ('Every snapshot is checked when it is taken (state handed to the serializer = model state at that position, consumers included), every '
             'dump file on disk is decoded after every step and at every restart (never torn, state = model at its index), every install/load is '
-            'followed by the C01 digest check; chunk sizes from 1 byte, transfers interrupted by drops and reconnects, kills during the dump write.', '6/C09'),
+            'followed by the C01 digest check; chunk sizes from 1 byte, transfers interrupted by drops and reconnects, kills during the dump write. All serializer modes of the statement: memory, file written inline, file written by a real fork child (the child holds the memory image of the fork instant and replaces the dump file at a drawn later virtual instant, may be killed by a signal or with its parent, or survive it), user-supplied serializer/deserializer functions (synchronous and with a serializeChecker that reports SERIALIZING for a while).', '6/C09'),
     'C10': ('Membership requests (API and admin path, on any node, at any time) are mixed into adversarial schedules with the operator discipline '
             'encoded in the adversary; after every step each node\'s member set is compared with the fold of the membership entries in its log over '
             'its base configuration, leaders are checked for at most one uncommitted change and none before an own-term commit, majorities are '
@@ -43,7 +43,7 @@ TEXT = {
     'C14': ('The real TCPTransport/TcpServer/TcpConnection of 2-4 real nodes run on simulated sockets under virtual time through refused connects, '
             'RST, black holes, dropped flows (half-open on both sides), kills without FIN and restarts; every delivered message is attributed '
             '(claimed sender really sent it to this node, in order, and is a member), every pair must be connected on both sides within the bound '
-            'once the network is healthy, and probes on links of every age check that "connected" means one message gets through exactly once.', '6/C14'),
+            'once the network is healthy, and probes on links of every age check that "connected" means one message gets through exactly once. Every third case has an outsider - a stranger nobody lists, a removed founding member that keeps running, a member added while down and removed before it ever connected - that must never be reported connected nor have a message attributed to it by a node that does not list it.', '6/C14'),
     'C16': ('Real ReplLockManager clients (one per node) with their prolongation threads run cooperatively under the common virtual clock; '
             'after every step at most one client may consider a lock its own, late acquisitions must be reported as failed and not kept, '
             'a holder that stops prolonging must be displaceable after the auto-unlock time (bounded-progress script at the end of every run), '
@@ -55,7 +55,7 @@ TEXT = {
             'raise; a node lacking the enabled version must not advance.', '6/C17'),
     'C19': ('Real caller threads against the real auto-tick thread with sys.monitoring yield injection at the hand-over code; unique ids make the '
             'history unambiguous: applied at most once per node, same position everywhere, failed never applied, one callback, sync result = own '
-            'command\'s result, no foreign exception.', '6/C19'),
+            'command\'s result, no foreign exception. Three-node cases destroy the leader process while calls are in flight or after all were answered.', '6/C19'),
     'C12': ('Commands that raise deterministically (user method and documented battery errors) are mixed into adversarial runs with restarts from '
             'the journal; a re-executed position, a stalled applied index (C05 stuck oracle), diverging digests (C01 oracle, model swallows the same '
             'exception) or a wrong/duplicate callback (C02 oracle) is a violation.', '6/C12'),
@@ -66,7 +66,7 @@ TEXT = {
     'C18': ('Read-only nodes join/leave under adversarial schedules; they must never send vote messages nor change role, majorities are counted over voters '
             'only (C04 oracle), they converge in the quiet phase and their submissions obey the C02 oracle.', '6/C18'),
     'C20': ('After every tick of a leader the harness compares the time since a majority-completing set of voters was last heard with the fallback '
-            'timeout; SUCCESS for commands submitted while cut off and the hasQuorum flag against ground-truth connections are checked every step.', '6/C20'),
+            'timeout; SUCCESS for commands submitted while cut off and the hasQuorum flag against ground-truth connections are checked every step. A quarter of the cases change the member set at run time (voters added that never answer, removals, rolled-back removals); the majority is counted over the voters the leader knows.', '6/C20'),
 }
 
 TECH = {
